@@ -343,6 +343,36 @@ func init() {
 		}
 	}
 
+	// ---- math/rand (top-level functions): an arbitrary value of the documented range ----
+	for _, pkg := range []string{"math/rand", "math/rand/v2"} {
+		pkg := pkg
+		I[pkg+".Float64"] = func(th *Thread, fn *ssa.Function, args []Value) Value {
+			m := th.m
+			v := m.freshVar("rand.Float64", 64)
+			m.assume(m.ts.And(m.ts.FCmp(OpFLe, m.ts.Const(64, f64bits(0)), v), m.ts.FCmp(OpFLt, v, m.ts.Const(64, f64bits(1)))))
+			return v
+		}
+		I[pkg+".Float32"] = func(th *Thread, fn *ssa.Function, args []Value) Value {
+			m := th.m
+			v := m.freshVar("rand.Float32", 32)
+			m.assume(m.ts.And(m.ts.FCmp(OpFLe, m.ts.Const(32, uint64(f32bits(0))), v), m.ts.FCmp(OpFLt, v, m.ts.Const(32, uint64(f32bits(1))))))
+			return v
+		}
+		I[pkg+".Int63"] = func(th *Thread, fn *ssa.Function, args []Value) Value {
+			m := th.m
+			v := m.freshVar("rand.Int63", 64)
+			m.assume(m.ts.Cmp(OpSLe, m.ts.Const(64, 0), v))
+			return v
+		}
+		I[pkg+".Intn"] = func(th *Thread, fn *ssa.Function, args []Value) Value {
+			m := th.m
+			n := args[0].(*Term)
+			v := m.freshVar("rand.Intn", 64)
+			m.assume(m.ts.And(m.ts.Cmp(OpSLe, m.ts.Const(64, 0), v), m.ts.Cmp(OpSLt, v, n)))
+			return v
+		}
+	}
+
 	// ---- utf8 ----
 	I["unicode/utf8.DecodeRuneInString"] = func(th *Thread, fn *ssa.Function, args []Value) Value {
 		m := th.m
